@@ -101,7 +101,7 @@ let report_text (t : c12_tree) (pfx : c12_str) : string =
   hex (List.concat_map (fun l -> l @ ['\n']) (c12_report_lines t pfx))
 let counts (s : c12_tree) = Printf.sprintf "{%d,%d}" (List.length (c12_vals s)) (List.length (c12_subs s))
 (* the remaining public members, as harness/C12/impl.cc fullApi *)
-let full_api (t : c12_tree) (qs : c12_str list) : string =
+let full_api (qh : bool) (t : c12_tree) (qs : c12_str list) : string =
   let b = Buffer.create 256 in
   List.iteri (fun i k -> if i < 3 then begin
     let p = c12_path k in
@@ -120,6 +120,14 @@ let full_api (t : c12_tree) (qs : c12_str list) : string =
    | k :: _ -> Buffer.add_string b (" r=" ^ (match c12_sub_const t (c12_path k) false with
                                               | Some s -> report_text s (k @ ['.']) | None -> "E"))
    | [] -> ());
+  (* report() read back by readINITree (overwrite allowed) into an empty tree; rt = the hypotheses of theorem
+     C12_report_roundtrip_partial hold for this tree (printable fragment, hierarchy) *)
+  let rl = c12_report_rlines t [] in
+  let lines = c12_report_lines t [] in
+  let rr = c12_parse_ini qh (List.concat_map (fun l -> l @ ['\n']) lines) c12_empty true in
+  let hyp = List.for_all (fun l -> not (List.mem '\n' l)) lines && List.for_all c12_rline_ok rl &&
+            c12_hierarchy (List.map (fun (k, _) -> c12_path k) (c12_rl_assigns rl [])) in
+  Buffer.add_string b (Printf.sprintf " rr=%s:%s rt=%d" (status_str rr.c12_ir_status) (dump rr.c12_ir_tree) (if hyp then 1 else 0));
   Buffer.add_string b " C=ok";
   Buffer.contents b
 
@@ -157,7 +165,12 @@ let get_case (ty : string) (v : c12_str) : string * string =
       | C12Int | C12Long | C12Short -> okz (c12_spec_int lo hi v)
       | _ -> (* unsigned: a leading '-' wraps (modelled library behaviour, not claimed) *)
         if List.mem '-' v then "?" else okz (c12_spec_int lo hi v) in
-    okz (via_tree (c12_parse_scalar (c12_ity_extract it)) v), spec in
+    let m = okz (via_tree (c12_parse_scalar (c12_ity_extract it)) v) in
+    (* instance of theorem C12_uint_exact on the extracted code (the oracle itself abstains on '-': library wrap-around) *)
+    let m = match it with
+      | C12UInt | C12ULong | C12UShort when okz (c12_spec_uint hi v) <> m -> "THEOREM-INSTANCE-MISMATCH(C12_uint_exact) " ^ m
+      | _ -> m in
+    m, spec in
   let range it n =
     let (lo, hi) = ity_bounds it in
     okl (via_tree (c12_parse_range true (c12_ity_extract it) (nat_of_int n)) v),
@@ -246,7 +259,7 @@ let do_case (line : string) : string =
       let r = c12_parse_ini qh (str_field t.(3)) (tree_of_predoc_v qh t.(2)) ow in
       let qs = String.concat "," (List.map (query r.c12_ir_tree) (strs_field t.(4))) in
       Printf.sprintf "%s %s Q:%s%s" (status_str r.c12_ir_status) (dump r.c12_ir_tree) qs
-        (if t.(0) = "inif" then full_api r.c12_ir_tree (strs_field t.(4)) ^ " ov=ok" else "") in
+        (if t.(0) = "inif" then full_api qh r.c12_ir_tree (strs_field t.(4)) ^ " ov=ok" else "") in
     let r = c12_parse_ini true (str_field t.(3)) pre ow in
     let m = let a = obs false and b = obs true in if a = b then a else a ^ " ~ " ^ b in
     let spec =
@@ -275,19 +288,8 @@ let do_case (line : string) : string =
   | "opt" ->
     let args = strs_field t.(1) in
     let (tr, st) = c12_read_options args c12_empty in
-    (* spec: the argument list is -k1 v1 -k2 v2 ... [-k]  (keys non-empty) *)
-    let rec pairs = function
-      | [] -> Some ([], false)
-      | [a] -> (match a with '-' :: _ :: _ -> Some ([], true) | _ -> None)
-      | a :: v :: r -> (match a with
-          | '-' :: (_ :: _ as k) -> (match pairs r with Some (l, d) -> Some ((k, v) :: l, d) | None -> None)
-          | _ -> None) in
-    let spec = match pairs args with
-      | Some (l, dangling) ->
-        let (t2, s2) = c12_set_all l c12_empty in
-        let s2 = if s2 = C12Ok && dangling then C12RangeError else s2 in
-        Printf.sprintf "%s %s" (status_str s2) (dump t2)
-      | None -> "?" in
+    (* spec for every argument vector: theorem C12_options_all_argv *)
+    let spec = let (t2, s2) = c12_spec_read_options args c12_empty in Printf.sprintf "%s %s" (status_str s2) (dump t2) in
     Printf.sprintf "%s %s | %s" (status_str st) (dump tr) spec
   | "nopt" ->
     let kw = strs_field t.(4) in
